@@ -26,10 +26,15 @@ K("awkward_Identities_getitem_carry",
 K("awkward_index_carry",
   extents={"fromindex": "lenfromindex"},
   requires=[nonneg_arr("carry", "length")],
+  # C02: carrying an index picks entry carry[q] for every q (out of range is an error)
+  loops={"L0": ["0 <= i", "forall(q, 0, i, carry[q] < lenfromindex and toindex[q] == fromindex[carry[q]])"]},
+  ensures_ok=["forall(q, 0, length, carry[q] < lenfromindex and toindex[q] == fromindex[carry[q]])"],
   serves=["C02", "C12", "C13"])
 
 K("awkward_index_carry_nocheck",
   requires=[nonneg_arr("carry", "length")],      # no bound parameter exists: fromindex extent is left unspecified
+  loops={"L0": ["0 <= i", "forall(q, 0, i, toindex[q] == fromindex[carry[q]])"]},
+  ensures_ok=["forall(q, 0, length, toindex[q] == fromindex[carry[q]])"],
   serves=["C12", "C13"],
   notes="no bound parameter exists; extent of fromindex is whatever the caller's carry stays below")
 
